@@ -59,7 +59,7 @@ PROPS = {
     "C11": {
         "rules": [r_fmt.lexicon_rows_reader, r_feat.run, r_feat.rawinput, r_feat.csvdefault, r_misc.lexmap_shape, r_misc.homograph_accumulate, r_token.dispatch,
                   r_misc.parallel, r_char.packguard,
-                  kind_scope("dictionary::lexicon", "dictionary::unknown", "dictionary::builder")],
+                  kind_scope("dictionary::lexicon", "dictionary::unknown", "dictionary::builder"), r_map.run_user, r_misc.optkeep_dictionary],
         "explanation": "FMT(reader side): parse_csv stores CSV column 1, 2, 3 into left_id, "
                        "right_id, word_cost (column -> WordParam::new parameter -> field, KIND "
                        "checked); PARALLEL: Lexicon::from_entries builds map, params and features "
@@ -208,7 +208,7 @@ PROPS = {
         "rules": [r_token.access, r_token.tokiter, r_token.dispatch, r_cand.cand, r_cand.unkfall, r_viterbi.traceback,
                   r_reset.run_tokens, r_panic.run_narrow_dict, r_cand.unkcover, r_panic.run_tok,
                   r_misc.spaceopt, r_char.run_key, r_cand.unkscan, r_panic.fieldwidth, kind_scope("dictionary::unknown", "token::", "dictionary::lexicon", "dictionary::builder"),
-                  r_map.verifystrict],
+                  r_map.verifystrict, r_map.run_user, r_misc.optkeep_dictionary],
         "explanation": "ACCESS: every Token accessor is a projection of the one stored (end, node) "
                        "pair and the sentence's offset table (ranges, surface, ids, costs, "
                        "feature); DISPATCH: each lexicon type is looked up in its own component "
